@@ -689,9 +689,23 @@ impl HttpContext {
                 .map(ToOwned::to_owned);
         }
 
-        // if self.method == Some(Method::Get) && request.body_size == kawa::BodySize::Empty {
-        //     request.parsing_phase = kawa::ParsingPhase::Terminated;
-        // }
+        // RFC 9112 §6.3 (rule 7): an HTTP/1.x request with neither
+        // Transfer-Encoding nor Content-Length has no body. kawa leaves such a
+        // message in the Body phase with an unknown length, which makes every
+        // following byte on the connection (a pipelined request) part of its
+        // "body", forwarded to this request's backend unrouted and unedited.
+        // H2 requests resolve their framing in pkawa after this callback.
+        if request.body_size == kawa::BodySize::Empty
+            && matches!(
+                request.detached.status_line,
+                kawa::StatusLine::Request {
+                    version: kawa::Version::V10 | kawa::Version::V11,
+                    ..
+                }
+            )
+        {
+            request.parsing_phase = kawa::ParsingPhase::Terminated;
+        }
 
         let public_ip = self.public_address.ip();
         let public_port = self.public_address.port();
